@@ -851,6 +851,12 @@ class MrpAudio(Audio):
         """Return current volume level."""
         return self._volume
 
+    def _checked_volume(self) -> float:
+        """Return current volume level if valid, otherwise raise an error."""
+        if 0.0 <= self._volume <= 100.0:
+            return self._volume
+        raise exceptions.ProtocolError(f"volume {self._volume} is out of range")
+
     async def set_volume(self, level: float) -> None:
         """Change current volume level."""
         if self.device_uid is None:
@@ -872,7 +878,7 @@ class MrpAudio(Audio):
             if self.is_volume_absolute:
                 await asyncio.wait_for(self._volume_event.wait(), timeout=5.0)
         elif self.is_volume_absolute:
-            await self.set_volume(min(self.volume + 5, 100.0))
+            await self.set_volume(min(self._checked_volume() + 5, 100.0))
 
     async def volume_down(self) -> None:
         """Decrease volume by one step."""
@@ -885,7 +891,7 @@ class MrpAudio(Audio):
             if self.is_volume_absolute:
                 await asyncio.wait_for(self._volume_event.wait(), timeout=5.0)
         elif self.is_volume_absolute:
-            await self.set_volume(max(self.volume - 5, 0.0))
+            await self.set_volume(max(self._checked_volume() - 5, 0.0))
 
     async def _update_output_devices(self, message: protobuf.ProtocolMessage) -> None:
         inner = cast(protobuf.DeviceInfoMessage, message.inner())
